@@ -70,7 +70,8 @@ Append_(p, sh) ==
                      /\ pc' = [pc EXCEPT ![p] = "upload"]
                 ELSE /\ mem' = [mem EXCEPT !.next = nx, !.buf = buf1]
                      /\ pc' = [pc EXCEPT ![p] = IF DevNoFlushOnAck THEN "ackready" ELSE "appended"]
-                     /\ UNCHANGED <<art, segUp, idxUp, stage>>
+                     /\ stage' = [stage EXCEPT ![p] = "flush"]
+                     /\ UNCHANGED <<art, segUp, idxUp>>
   /\ UNCHANGED <<up, rfail, restarted, s3seg, s3idx, storeNext, pubVal, faults, crashes, acked, hwReg, hwMax>>
 
 \* prepareFlush under l.mu (called from Flush after the wait loop)
@@ -102,13 +103,13 @@ UpSeg(p, ok) ==
   /\ IF ok THEN /\ s3seg' = S3Put(s3seg, art[p]) /\ segUp' = [segUp EXCEPT ![p] = "ok"] /\ UNCHANGED faults
      ELSE /\ faults < MaxFaults /\ faults' = faults + 1 /\ segUp' = [segUp EXCEPT ![p] = "fail"] /\ UNCHANGED s3seg
   /\ IF DevCommitBeforeIndex /\ ok
-     THEN mem' = [mem EXCEPT !.segs = Append(@, [base |-> art[p].base, last |-> art[p].last])]
+     THEN mem' = [mem EXCEPT !.segs = Append(@, [base |-> art[p].base, last |-> art[p].last, nb |-> Len(art[p].batches)])]
      ELSE UNCHANGED mem
   /\ UNCHANGED <<up, rfail, restarted, s3idx, storeNext, pc, stage, req, art, idxUp, pubVal, sent, crashes, acked, hwReg, nextReg, hwMax>>
 UpIdx(p, ok) ==
   /\ up /\ pc[p] = "upload" /\ idxUp[p] = "pending"
   /\ Log([a |-> "UpIdx", p |-> p, ok |-> ok])
-  /\ IF ok THEN /\ s3idx' = s3idx \cup {art[p].base} /\ idxUp' = [idxUp EXCEPT ![p] = "ok"] /\ UNCHANGED faults
+  /\ IF ok THEN /\ s3idx' = {x \in s3idx : x.base # art[p].base} \cup {[base |-> art[p].base, nb |-> Len(art[p].batches)]} /\ idxUp' = [idxUp EXCEPT ![p] = "ok"] /\ UNCHANGED faults
      ELSE /\ faults < MaxFaults /\ faults' = faults + 1 /\ idxUp' = [idxUp EXCEPT ![p] = "fail"] /\ UNCHANGED s3idx
   /\ UNCHANGED <<mem, up, rfail, restarted, s3seg, storeNext, pc, stage, req, art, segUp, pubVal, sent, crashes, acked, hwReg, nextReg, hwMax>>
 \* errgroup cancelled the context after the sibling failed: the pending upload may be abandoned
@@ -124,7 +125,7 @@ UpDone(p) ==
   /\ up /\ pc[p] = "upload" /\ segUp[p] # "pending" /\ idxUp[p] # "pending"
   /\ Log([a |-> "UpDone", p |-> p])
   /\ IF segUp[p] = "ok" /\ idxUp[p] = "ok"
-     THEN /\ mem' = [mem EXCEPT !.segs = IF DevCommitBeforeIndex THEN @ ELSE Append(@, [base |-> art[p].base, last |-> art[p].last]),
+     THEN /\ mem' = [mem EXCEPT !.segs = IF DevCommitBeforeIndex THEN @ ELSE Append(@, [base |-> art[p].base, last |-> art[p].last, nb |-> Len(art[p].batches)]),
                                 !.flushing = FALSE, !.fb = <<>>]
           /\ pubVal' = [pubVal EXCEPT ![p] = art[p].last]
           /\ pc' = [pc EXCEPT ![p] = "publish"]
@@ -176,7 +177,9 @@ Restart ==
   /\ Log([a |-> "Restart"])
   /\ LET start == storeNext
          objs == SortObjs(s3seg)
-         noIdx(o) == o.base \notin s3idx
+         IdxBases == {x.base : x \in s3idx}
+         NbOf(b) == (CHOOSE x \in s3idx : x.base = b).nb
+         noIdx(o) == o.base \notin IdxBases
          bad == IF DevOrphanAlwaysSkipped THEN FALSE
                 ELSE \E i \in 1..Len(objs) : noIdx(objs[i]) /\ (DevOrphanNotSkipped \/ objs[i].base < start)
          good == SelectSeq(objs, LAMBDA o : ~noIdx(o))
@@ -185,7 +188,7 @@ Restart ==
      IN /\ rfail' = bad
         /\ up' = ~bad
         /\ mem' = IF bad THEN EmptyMem
-                  ELSE [EmptyMem EXCEPT !.next = nx, !.segs = [i \in 1..Len(good) |-> [base |-> good[i].base, last |-> good[i].last]]]
+                  ELSE [EmptyMem EXCEPT !.next = nx, !.segs = [i \in 1..Len(good) |-> [base |-> good[i].base, last |-> good[i].last, nb |-> NbOf(good[i].base)]]]
         /\ LET nv == IF ~bad /\ last >= start THEN last + 1 ELSE storeNext IN
              /\ storeNext' = nv /\ hwMax' = IF nv > hwMax THEN nv ELSE hwMax
   /\ restarted' = TRUE
@@ -217,8 +220,8 @@ EntryFor(bs, off) == LET I == IdxSet(bs)  le == {i \in I : bs[i].base <= off}
 RECURSIVE PosSeqFrom(_, _, _)
 PosSeqFrom(bs, i, at) == IF i > Len(bs) THEN <<at>> ELSE <<at>> \o PosSeqFrom(bs, i + 1, at + bs[i].sz)
 PosSeq(bs) == PosSeqFrom(bs, 1, Hd)
-SegRange(bs, off, mb) ==
-  LET I == IdxSet(bs)
+SegRange(bs, nb, off, mb) ==
+  LET I == IdxSet(SubSeq(bs, 1, IF nb < Len(bs) THEN nb ELSE Len(bs)))   \* the index object may cover only a prefix (retried flush + crash)
       ps == PosSeq(bs)
       le == {i \in I : bs[i].base <= off}
       i == IF le = {} THEN MinOf(I) ELSE MaxOf(le)
@@ -244,7 +247,7 @@ ReadSpec(o, mb) ==
            off == IF o >= s.base THEN o ELSE s.base
        IN IF ~\E x \in s3seg : x.base = s.base THEN [kind |-> "err"]
           ELSE LET bs == S3Obj(s.base).batches
-                   r == SegRange(bs, off, mb)
+                   r == SegRange(bs, s.nb, off, mb)
                IN [kind |-> "ok", src |-> "seg", first |-> bs[r.first].base,
                    starts |-> {bs[j].base : j \in r.covered},
                    len |-> r.end - r.start + 1]
@@ -267,7 +270,7 @@ ReadRec(o, mb) == LET r == ReadSpec(o, mb) IN
     aligned |-> TRUE, intact |-> TRUE]
 Reads == IF up THEN {ReadRec(o, mb) : o \in 0..(mem.next - 1), mb \in MBs} ELSE {}
 Proj(o) == [base |-> o.base, last |-> o.last, batches |-> [j \in 1..Len(o.batches) |-> [id |-> o.batches[j].id, base |-> o.batches[j].base, cnt |-> o.batches[j].cnt]]]
-P == INSTANCE LogProps WITH acked <- acked, s3seg <- {Proj(o) : o \in s3seg}, s3idx <- s3idx, storeNext <- storeNext,
+P == INSTANCE LogProps WITH acked <- acked, s3seg <- {Proj(o) : o \in s3seg}, s3idx <- {x.base : x \in s3idx}, storeNext <- storeNext,
        hwRegressed <- hwReg, nextRegressed <- nextReg, rfail <- rfail, up <- up, memNext <- mem.next, hwMax <- hwMax, restarted <- restarted,
        ref <- Ref, reads <- Reads
 C01_AckedDurable == P!C01_AckedDurable
